@@ -124,6 +124,12 @@ type Rec struct {
 	mu    sync.Mutex
 	es    []Entry
 	nsent int64
+
+	// PayloadAt: for each call id, the instant the peer STARTED reading the payload of the frame
+	// carrying that call's token (taken after any stall, before the read that lets the library's
+	// write finish). It is <= the instant the library's write returned, hence <= the instant the
+	// reply timer was armed: "timeout - PayloadAt >= T3" is an exact lower bound on correct code.
+	PayloadAt sync.Map
 }
 
 func (r *Rec) Add(e Entry) {
@@ -260,6 +266,39 @@ type Peer struct {
 	wmu  sync.Mutex
 	ctlN int64 // synthesized ids for library-internal control transactions
 	dead chan struct{}
+
+	holdMu sync.Mutex
+	hold   chan struct{} // while non-nil and open, the reader does not read frame payloads
+}
+
+// Hold makes the peer stop reading (a slow / zero-window peer): the library's next write blocks on
+// the pipe until Release.
+func (p *Peer) Hold() {
+	p.holdMu.Lock()
+	p.hold = make(chan struct{})
+	p.holdMu.Unlock()
+}
+
+// Release lets the reader continue.
+func (p *Peer) Release() {
+	p.holdMu.Lock()
+	if p.hold != nil {
+		close(p.hold)
+		p.hold = nil
+	}
+	p.holdMu.Unlock()
+}
+
+func (p *Peer) waitHold() {
+	p.holdMu.Lock()
+	ch := p.hold
+	p.holdMu.Unlock()
+	if ch != nil {
+		select {
+		case <-ch:
+		case <-p.dead:
+		}
+	}
 }
 
 const InternalCallBase = 1000000
@@ -282,6 +321,8 @@ func (p *Peer) readLoop() {
 		if n < 10 || n > 1<<20 {
 			return
 		}
+		p.waitHold() // the length prefix is in; the rest of the library's write is still blocked
+		payloadAt := time.Now()
 		buf := make([]byte, n)
 		if _, err := io.ReadFull(p.Conn, buf); err != nil {
 			return
@@ -291,6 +332,7 @@ func (p *Peer) readLoop() {
 		if IsData(f) {
 			if v, ok := U4Of(f.Body); ok {
 				origin = int64(v)
+				p.Rec.PayloadAt.LoadOrStore(origin, payloadAt)
 			}
 		} else if f.PT == 0 && (f.ST == 1 || f.ST == 5) {
 			// a control transaction the library started by itself: synthesize its start
@@ -374,6 +416,7 @@ func (p *Peer) Barrier(other func(Frame)) bool {
 }
 
 func (p *Peer) Close() {
+	p.Release()
 	_ = p.Conn.Close()
 	select {
 	case <-p.dead:
@@ -717,7 +760,15 @@ func (e *Env) SyncSend(ctx context.Context, id int64, stream, fn byte, w bool) (
 	e.Rec.Add(Entry{K: 'S', ID: id, Kind: "KSync", F: &f})
 	t0 := time.Now()
 	reply, err := e.Conn.SendDataMessage(ctx, stream, fn, w, secs2.U4(uint32(id)))
-	el := time.Since(t0)
+	ret := time.Now()
+	el := ret.Sub(t0)
+	// "no earlier than T3 after the primary was written": measure from the instant the peer started
+	// reading the payload when known (a tighter start that still precedes the arming of the timer)
+	if v, ok := e.Rec.PayloadAt.Load(id); ok {
+		if d := ret.Sub(v.(time.Time)); d < el {
+			el = d
+		}
+	}
 	res := Classify(reply, err)
 	if reply != nil && err != nil {
 		res = "both"
